@@ -74,6 +74,14 @@ CHECKS = {
    "exhaustive operation sequences (all histories up to a length bound x every single-fault injection) against a fresh-connection reference",
    "All sequences of up to 3 (thorough 4) expressions over an alphabet of 8 on one evaluator / IRR connection, without faults and with one injected error answer (D, E, F) at every query index of every member; every member's result must equal the result of the same expression, with the same fault, on a fresh connection; the evaluator must remain usable after failures.",
    "Connection loss mid-stream is not injected (irrc spins on EOF: dependency behaviour recorded in DESIGN).", "DESIGN.md §2 E5 C17"),
+ "C04": ("E6", "fault_enumeration",
+   "exhaustive fault enumeration: every fault kind at every position of the agent's request sequence, real agent end to end",
+   "The real agent (bgpfu_junos_agent::main, one-shot, local target through the stand-in cli of hook H2) runs against a fake Junos NETCONF server and a fake IRRd for N = 0..3 (thorough 0..4) managed policies; one fault per run at every position of open, get-config x2, load x N, commit, close-configuration, close-session and of every kind (rpc-error, warning+error, malformed reply, unknown message-id, re-used message-id, close before the reply, close after the reply, failing load reply delayed behind later loads). From the server's request log and the exit status: commit only after open and all N loads were positively acknowledged, no commit after a failed step, exit 0 iff every step was acknowledged, termination within the watchdog.",
+   "The fake Junos implements the Junos XML protocol as documented; the agent is built inside the harness workspace from /repo's crates (same main body as the shipped binary).", "DESIGN.md §2 E6 C04"),
+ "C15": ("E6", "fault_enumeration",
+   "enumeration of unevaluable-policy kinds x policy sets x observed evaluation orders, real agent end to end",
+   "Policy sets of 2-3 managed policies containing 1-2 members that are valid RPSL but unevaluable (unknown as-set, IRR error answers, PeerAS, AS-path regular expressions, attribute matches), run through the real agent against fake Junos + fake IRRd and repeated until every evaluation order of the evaluable members was observed; the run must exit 0 with one commit, every other policy installed with exactly its oracle set and nothing installed for the unevaluable one. The evaluation stage is also checked in isolation.",
+   "Evaluation order (HashMap iteration) is observed from the IRR query log, not forced; the repeat cap is reported.", "DESIGN.md §2 E6 C15"),
 }
 
 NOT_YET = "check not built yet (construction in progress; see DESIGN.md)"
